@@ -36,8 +36,23 @@ Definition spec_polygons (pes : list polyelem) (q : pt) (z : option Q) (nested :
 Definition any_boundary (pes : list polyelem) (q : pt) : bool :=
   existsb (fun pe => on_boundary_b (close (pe_pts pe)) q) pes.
 
+Definition asPop (s : sx) : option pop :=
+  match s with
+  | L [I 0%Z; pe] => match asPE pe with Some pe' => Some (PAdd pe') | None => None end
+  | L [I 1%Z; i; pts] => match asNat i, asListOf asPt pts with Some i', Some p => Some (PSetXY i' p) | _, _ => None end
+  | _ => None
+  end.
+
 Definition run (c : sx) : sx :=
   match c with
+  | L [I 3%Z; n; ops; q; z] =>
+      match asB n, asListOf asPop ops, asPt q, asOQ z with
+      | Some nested, Some ops', Some q', Some z' =>
+          let pes := polygons_after ops' in
+          L [ofB (polygons_inside pes q' z' nested); ofB (any_boundary pes q');
+             ofB (spec_polygons pes q' z' nested)]
+      | _, _, _, _ => sx_error 1
+      end
   | L [I 0%Z; p; q] =>
       match asListOf asPt p, asPt q with
       | Some pts, Some q' =>
